@@ -83,6 +83,130 @@ def holds(atoms_: list[tuple[str, bool]], text: str, pol: bool = True) -> bool:
     return (text, pol) in atoms_
 
 
+def text_parts(e: ast.AST) -> list[str]:
+    """'a' + x, f'a{x}' and 'a{}'.format(x) build the same text: the literal pieces (as reprs)
+    and the interpolated expressions (unparsed), in order.  Adjacent literals are merged."""
+    import re as _re
+
+    def go(e: ast.AST) -> list[str]:
+        if isinstance(e, ast.BinOp) and isinstance(e.op, ast.Add):
+            return go(e.left) + go(e.right)
+        if isinstance(e, ast.JoinedStr):
+            out_: list[str] = []
+            for v_ in e.values:
+                if isinstance(v_, ast.Constant):
+                    out_.append(repr(v_.value))
+                elif isinstance(v_, ast.FormattedValue) and v_.conversion == -1 and v_.format_spec is None:
+                    out_.append(ast.unparse(v_.value))
+                else:
+                    out_.append("?" + ast.unparse(v_))
+            return out_
+        if isinstance(e, ast.Call) and isinstance(e.func, ast.Attribute) and e.func.attr == "format" and isinstance(e.func.value, ast.Constant) and isinstance(e.func.value.value, str) and not e.keywords and not any(isinstance(a, ast.Starred) for a in e.args):
+            pieces = _re.split(r"(\{\{|\}\}|\{\})", e.func.value.value)
+            out_, i, lit = [], 0, ""
+            for pc in pieces:
+                if pc == "{}":
+                    if i >= len(e.args):
+                        return [ast.unparse(e)]
+                    if lit:
+                        out_.append(repr(lit))
+                        lit = ""
+                    out_.append(ast.unparse(e.args[i]))
+                    i += 1
+                elif pc in ("{{", "}}"):
+                    lit += pc[0]
+                elif "{" in pc or "}" in pc:
+                    return [ast.unparse(e)]
+                else:
+                    lit += pc
+            if lit:
+                out_.append(repr(lit))
+            return out_ if i == len(e.args) else [ast.unparse(e)]
+        if isinstance(e, ast.Call) and callee(e) == "str" and len(e.args) == 1 and not e.keywords:
+            return [ast.unparse(e.args[0])]  # f'{x}' is format(x, '') == str(x) for str / int / Markup
+        if isinstance(e, ast.Constant) and isinstance(e.value, str):
+            return [repr(e.value)]
+        return [ast.unparse(e)]
+
+    merged: list[str] = []
+    for p in go(e):
+        if p == "''":
+            continue
+        if merged and merged[-1][:1] in "'\"" and p[:1] in "'\"":
+            try:
+                merged[-1] = repr(ast.literal_eval(merged[-1]) + ast.literal_eval(p))
+                continue
+            except Exception:
+                pass
+        merged.append(p)
+    return merged
+
+
+def bool_table(node: ast.AST, atom_texts: list[str]) -> dict[tuple[bool, ...], bool | None]:
+    """Truth table of a predicate over the named atoms: ``node`` is a boolean expression or a
+    function whose body is made of if / return statements (early returns, nested ifs, else
+    branches, conditional expressions, not / and / or in any arrangement).  The value is None
+    for a valuation under which the result depends on anything but the atoms - so two
+    differently written predicates compare equal exactly when they compute the same function
+    of the atoms."""
+    import itertools
+
+    def ev(x: ast.expr, val: dict[str, bool]) -> bool | None:
+        if isinstance(x, ast.UnaryOp) and isinstance(x.op, ast.Not):
+            v = ev(x.operand, val)
+            return None if v is None else not v
+        if isinstance(x, ast.BoolOp):
+            is_and = isinstance(x.op, ast.And)
+            unknown = False
+            for v_ in x.values:
+                v = ev(v_, val)
+                if v is None:
+                    unknown = True
+                elif v is (not is_and):
+                    # short circuit: a false conjunct / true disjunct decides (atoms are pure tests)
+                    return v
+            return None if unknown else is_and
+        if isinstance(x, ast.Constant) and isinstance(x.value, bool):
+            return x.value
+        if isinstance(x, ast.IfExp):
+            c = ev(x.test, val)
+            return None if c is None else ev(x.body if c else x.orelse, val)
+        if isinstance(x, ast.Name) and x.id in local_vals:
+            return ev(local_vals[x.id], val)
+        return val.get(ast.unparse(x))
+
+    def run(body: list[ast.stmt], val: dict[str, bool]) -> tuple[bool, bool | None]:
+        """(returned?, value)"""
+        for st in body:
+            if isinstance(st, ast.Expr) and isinstance(st.value, ast.Constant):
+                continue
+            if isinstance(st, ast.Return):
+                return True, (ev(st.value, val) if st.value is not None else None)
+            if isinstance(st, ast.If):
+                c = ev(st.test, val)
+                if c is None:
+                    return True, None
+                done, r = run(st.body if c else st.orelse, val)
+                if done:
+                    return True, r
+                continue
+            if isinstance(st, ast.Assign) and len(st.targets) == 1 and isinstance(st.targets[0], ast.Name) and sum(1 for a in ast.walk(node) if isinstance(a, ast.Assign) and any(isinstance(t_, ast.Name) and t_.id == st.targets[0].id for t_ in a.targets)) == 1:
+                local_vals[st.targets[0].id] = st.value  # a named sub-test
+                continue
+            return True, None
+        return False, None
+
+    out: dict[tuple[bool, ...], bool | None] = {}
+    for combo in itertools.product((True, False), repeat=len(atom_texts)):
+        val = dict(zip(atom_texts, combo))
+        local_vals: dict[str, ast.expr] = {}
+        if isinstance(node, (ast.FunctionDef, ast.AsyncFunctionDef)):
+            out[combo] = run(node.body, val)[1]
+        else:
+            out[combo] = ev(node, val)  # type: ignore[arg-type]
+    return out
+
+
 def assigned_names(func: ast.AST) -> dict[str, list[ast.expr]]:
     """name -> list of value expressions assigned to it in the function (no nested defs)."""
     out: dict[str, list[ast.expr]] = {}
